@@ -451,14 +451,15 @@ Section Refinement.
     { unfold b. rewrite Hsz. apply so_dummy_lt_regular. exact Hlk. }
     destruct (is_init d b) eqn:Ei.
     - split; [exact Hinv | split; [apply same_frame_refl | split; [reflexivity|]]].
-      apply find_from_global; auto. apply Hlok. apply weaken_dummy, HB. apply is_init_In. exact Ei.
+      apply find_from_global; [apply Hlok | apply weaken_dummy, HB; apply is_init_In; exact Ei | exact Hlt].
     - assert (Hb0 : b <> 0).
       { intro E. rewrite E in Ei. apply is_init_In in H0. congruence. }
       destruct (init_bucket_ok 64 d b Hinv Hb0) as (Hinv1 & Hf1 & Hb1 & _).
       + change (N.of_nat 64) with 64. lia.
       + lia.
       + split; [exact Hinv1 | split; [exact Hf1 | split; [reflexivity|]]].
-        apply find_from_global; auto. apply Hinv1. apply weaken_dummy. apply Hinv1. exact Hb1.
+        destruct Hinv1 as ((Hs1 & _) & _ & _ & HB1 & _).
+        apply find_from_global; [exact Hs1 | apply weaken_dummy, HB1; exact Hb1 | exact Hlt].
   Qed.
 
   Lemma bump_ok d l' : Inv d -> list_ok l' ->
@@ -466,9 +467,10 @@ Section Refinement.
     (length (keys_of l') <= S (length (keys_of (d_list d))))%nat ->
     Inv (bump (set_list d l')) /\ d_list (bump (set_list d l')) = l'.
   Proof.
-    intros (Hlok & (kk & Hsz) & H0 & HB & Hcnt) Hl' HB' Hlen. unfold bump, set_list, set_count, set_size. cbn.
-    destruct ((MAX_LOAD <? d_count d / d_size d) && (2 * d_size d <=? d_cap d)); cbn; (split; [|reflexivity]);
-      unfold Inv; cbn; refine (conj Hl' (conj _ (conj H0 (conj HB' _)))); try lia.
+    intros (Hlok & (kk & Hsz) & H0 & HB & Hcnt) Hl' HB' Hlen. unfold bump, set_list, set_count, set_size.
+    cbn [d_list d_B d_size d_count d_cap].
+    destruct ((MAX_LOAD <? d_count d / d_size d) && (2 * d_size d <=? d_cap d)); (split; [|reflexivity]);
+      unfold Inv; cbn [d_list d_B d_size d_count d_cap]; refine (conj Hl' (conj _ (conj H0 (conj HB' _)))); try lia.
     - exists (N.succ kk). rewrite N.pow_succ_r', Hsz. reflexivity.
     - exists kk. exact Hsz.
   Qed.
@@ -570,7 +572,7 @@ Section Refinement.
     destruct Hc as [(-> & Hgt & Hno)|(e & t & -> & Hso & Hek & Hev & Hnz)].
     - cbn [N.eqb fst snd negb]. split; [exact Hinv1 | split; [reflexivity|]]. intros k' Hk'. unfold upd.
       destruct (N.eqb_spec k' k) as [->|_]; [|apply Habs; exact Hk'].
-      rewrite Habs by exact Hk. unfold abs in Hfv. congruence.
+      rewrite Habs by exact Hk. symmetry. exact Hfv.
     - destruct (N.eqb_spec fv 0) as [E|_]; [contradiction|]. cbn [fst snd negb].
       rewrite El, remove_at_split. rewrite El in Hlok.
       destruct (list_remove k l1 e t Hk Hlok Hek) as (Hl' & Hal & Hlen).
